@@ -541,8 +541,7 @@ def build(choose, common=False, bp_base=True):
                 # weights only make sense on branches leaving a branchpoint; branches carry no guard/sync/select
                 if e.src[0] == "B":
                     on[0] = on[1] = on[2] = False
-                else:
-                    on[4] = False
+                # (a weight on an edge that leaves a location is unusual but accepted and kept by the library: a deviation)
                 if on[0]:
                     e.select = 600 + ei + 1
                     e.selstyle = choose(4, tag + ".selstyle")
